@@ -37,10 +37,53 @@ Code details
 ~~~~~~~~~~~~
 """
 import copy
+import re
 from typing import Iterable
 
 import numpy as np
 import sympy as sym
+
+
+def _is_ptype(v):
+    """Checks whether a string is of the form `p0`, `p1`, etc."""
+    return len(v) > 1 and v[0] == "p" and v[1:].isdigit()
+
+
+def _value_to_blackbird(v, tdm=False):
+    """Converts a single (non-array) argument value to its Blackbird script form.
+
+    Args:
+        v: a number, boolean, string, SymPy expression, or a list of these
+        tdm (bool): whether strings of the form ``p0`` refer to TDM arrays
+
+    Returns:
+        str: the Blackbird representation of the value
+    """
+    if isinstance(v, (list, tuple)):
+        return "[{}]".format(", ".join(_value_to_blackbird(i, tdm) for i in v))
+
+    if isinstance(v, str):
+        # a p-type parameter (e.g. p0) is simply added as is
+        if tdm and _is_ptype(v):
+            return v
+        return '"{}"'.format(v)
+
+    if isinstance(v, sym.Expr):
+        # wrap every free parameter in braces
+        names = sorted((str(p) for p in v.free_symbols), key=len, reverse=True)
+        if not names:
+            return str(v)
+        pattern = r"\b({})\b".format("|".join(re.escape(n) for n in names))
+        return re.sub(pattern, r"{\1}", str(v))
+
+    if isinstance(v, np.generic):
+        v = v.item()
+
+    if isinstance(v, complex):
+        return "{}{}{}j".format(v.real, "+-"[int(v.imag < 0)], abs(v.imag))
+
+    # booleans, ints, floats
+    return "{}".format(v)
 
 
 def numpy_to_blackbird(A, var_name):
@@ -333,10 +376,7 @@ class BlackbirdProgram:
                     # the expected syntax
                     option_strings = []
                     for k, v in data["options"].items():
-                        if not isinstance(v, str):
-                            option_strings.append("{}={}".format(k, v))
-                        else:
-                            option_strings.append('{}="{}"'.format(k, v))
+                        option_strings.append("{}={}".format(k, _value_to_blackbird(v)))
 
                     options = " ({})".format(", ".join(option_strings))
 
@@ -352,6 +392,9 @@ class BlackbirdProgram:
             inv_type_map = {np.dtype(v).kind: k for k, v in NUMPY_TYPES.items()}
 
             for k, v in self._var.items():
+                if not (_is_ptype(k) and isinstance(v, np.ndarray)):
+                    # ordinary variables are inlined by value where they are used
+                    continue
                 var_type = inv_type_map[np.array(v).dtype.kind]
                 array_string = ""
                 if isinstance(v, Iterable):
@@ -365,12 +408,14 @@ class BlackbirdProgram:
             # line break
             script.append("")
 
+        is_tdm = self.programtype["name"] == "tdm"
+
         # loop through each quantum operation
         for op in self.operations:
             if len(op["modes"]) == 1:
                 modes = op["modes"][0]
             else:
-                modes = op["modes"]
+                modes = "[{}]".format(", ".join("{}".format(m) for m in op["modes"]))
 
             # check if the operation has any arguments
             if "args" in op:
@@ -394,30 +439,9 @@ class BlackbirdProgram:
 
                         array_insert += len(bb_array)
 
-                    elif isinstance(v, str):
-                        # argument is a string type; if a p-type parameter (e.g. p0),
-                        # then simply add it as is
-                        if self.programtype["name"] == "tdm" and v[0] == "p" and v[1:].isdigit():
-                            args.append(v)
-                        else:
-                            args.append('"{}"'.format(v))
-
-                    elif isinstance(v, complex):
-                        # argument is a complex type
-                        args.append("{}{}{}j".format(v.real, "+-"[int(v.imag < 0)], np.abs(v.imag)))
-
-                    elif isinstance(v, sym.Expr):
-                        # argument contains free parameters
-                        res = str(v)
-                        for p in v.free_symbols:
-                            res = res.replace(str(p), "{"+str(p)+"}")
-
-                        args.append(res)
-
                     else:
-                        # anything that doesn't need to be dealt with as a special case,
-                        # i.e., booleans, ints, floats.
-                        args.append("{}".format(v))
+                        # strings, numbers, booleans, lists and free parameters
+                        args.append(_value_to_blackbird(v, is_tdm))
 
                 # loop through keyword argument
                 for k, v in op["kwargs"].items():
@@ -436,21 +460,8 @@ class BlackbirdProgram:
 
                         array_insert += len(bb_array)
 
-                    elif isinstance(v, str):
-                        # kwarg is a string type; if a p-type parameter (e.g. p0),
-                        # then simply add it as is
-                        if self.programtype["name"] == "tdm" and v[0] == "p" and v[1:].isdigit():
-                            kwargs.append("{}={}".format(k, v))
-                        else:
-                            kwargs.append('{}="{}"'.format(k, v))
-
-                    elif isinstance(v, complex):
-                        kwargs.append(
-                            "{}={}{}{}j".format(k, v.real, "+-"[int(v.imag < 0)], np.abs(v.imag))
-                        )
-
                     else:
-                        kwargs.append("{}={}".format(k, v))
+                        kwargs.append("{}={}".format(k, _value_to_blackbird(v, is_tdm)))
 
                 if args and kwargs:
                     arguments = "({}, {})".format(", ".join(args), ", ".join(kwargs))
